@@ -98,6 +98,59 @@ pub mod ev {
     {
         assert(defs.push(d).drop_last() =~= defs);
     }
+    // --- iterating a Vars (Parser::inherit): the entries in iteration order, as (name, value) character sequences
+    pub uninterp spec fn pairs_seq(v: Vars) -> Seq<(Seq<char>, Seq<char>)>;
+    pub open spec fn pair_view(p: (&&str, &String)) -> (Seq<char>, Seq<char>) { ((*p.0)@, p.1@) }
+    pub open spec fn pairs_view(ps: Seq<(&&str, &String)>) -> Seq<(Seq<char>, Seq<char>)> { Seq::new(ps.len(), |i: int| pair_view(ps[i])) }
+    /// ps lists exactly the entries of m
+    pub open spec fn pairs_of(ps: Seq<(Seq<char>, Seq<char>)>, m: Map<Seq<char>, Seq<char>>) -> bool {
+        (forall|i: int| 0 <= i < ps.len() ==> m.contains_key(#[trigger] ps[i].0) && m[ps[i].0] == ps[i].1)
+        && (forall|k: Seq<char>| m.contains_key(k) ==> exists|i: int| 0 <= i < ps.len() && #[trigger] ps[i].0 == k)
+    }
+    pub open spec fn ins_pairs(m: Map<Seq<char>, Seq<char>>, ps: Seq<(Seq<char>, Seq<char>)>, k: int) -> Map<Seq<char>, Seq<char>>
+        decreases k
+    {
+        if k <= 0 { m } else { ins_pairs(m, ps, k - 1).insert(ps[k - 1].0, ps[k - 1].1) }
+    }
+    pub proof fn lemma_ins_pairs(m: Map<Seq<char>, Seq<char>>, ps: Seq<(Seq<char>, Seq<char>)>, fm: Map<Seq<char>, Seq<char>>, k: int, x: Seq<char>)
+        requires 0 <= k <= ps.len(), forall|i: int| 0 <= i < ps.len() ==> fm.contains_key(#[trigger] ps[i].0) && fm[ps[i].0] == ps[i].1
+        ensures ins_pairs(m, ps, k).contains_key(x) == (m.contains_key(x) || exists|i: int| 0 <= i < k && #[trigger] ps[i].0 == x),
+            (exists|i: int| 0 <= i < k && #[trigger] ps[i].0 == x) ==> ins_pairs(m, ps, k)[x] == fm[x],
+            !(exists|i: int| 0 <= i < k && #[trigger] ps[i].0 == x) && m.contains_key(x) ==> ins_pairs(m, ps, k)[x] == m[x],
+        decreases k
+    {
+        if k > 0 {
+            lemma_ins_pairs(m, ps, fm, k - 1, x);
+            if ps[k - 1].0 == x {
+            } else {
+                if exists|i: int| 0 <= i < k && #[trigger] ps[i].0 == x {
+                    let i = choose|i: int| 0 <= i < k && #[trigger] ps[i].0 == x;
+                    assert(0 <= i < k - 1 && ps[i].0 == x);
+                }
+            }
+        }
+    }
+    pub proof fn lemma_ins_pairs_all(m: Map<Seq<char>, Seq<char>>, ps: Seq<(Seq<char>, Seq<char>)>, fm: Map<Seq<char>, Seq<char>>)
+        requires pairs_of(ps, fm)
+        ensures ins_pairs(m, ps, ps.len() as int) == m.union_prefer_right(fm)
+    {
+        let a = ins_pairs(m, ps, ps.len() as int);
+        let b = m.union_prefer_right(fm);
+        assert forall|x: Seq<char>| #[trigger] a.contains_key(x) == b.contains_key(x) && (a.contains_key(x) ==> a[x] == b[x]) by {
+            lemma_ins_pairs(m, ps, fm, ps.len() as int, x);
+            if fm.contains_key(x) {
+                let i = choose|i: int| 0 <= i < ps.len() && #[trigger] ps[i].0 == x;
+                assert(0 <= i < ps.len() && ps[i].0 == x);
+            } else {
+                if exists|i: int| 0 <= i < ps.len() && #[trigger] ps[i].0 == x {
+                    let i = choose|i: int| 0 <= i < ps.len() && #[trigger] ps[i].0 == x;
+                    assert(fm.contains_key(ps[i].0));
+                }
+            }
+        }
+        assert(a.dom() =~= b.dom());
+        assert(a =~= b);
+    }
     pub proof fn lemma_lookup_skip(v: Seq<char>, envs: Seq<&dyn Env>, a: int, i: int)
         requires 0 <= a <= i <= envs.len(), forall|j: int| a <= j < i ==> binds(#[trigger] envs[j], v) is None
         ensures lookup(v, envs, a) == lookup(v, envs, i)
